@@ -35,8 +35,9 @@
 (*       `>` is not recognised as superselector of a unify result that     *)
 (*       interleaves sibling compounds                                     *)
 (*   amp_via_unify   the selector emitted for a{&b{..}} goes through       *)
-(*       CompoundSelector::unify: duplicate simple selectors are dropped   *)
-(*       and a pseudo-element is moved last; selector.append keeps them    *)
+(*       CompoundSelector::unify: duplicate simple selectors are dropped,  *)
+(*       a pseudo-element is moved last and further pseudo-elements are    *)
+(*       dropped; selector.append keeps them as written                    *)
 (***************************************************************************)
 EXTENDS Selectors
 
@@ -152,14 +153,20 @@ SameOK(e) == IF e.sf = "panic" \/ e.se = "panic" THEN TRUE
 NestOK(e)   == SameOK(e)
 AppendOK(e) == SameOK(e)
 
-(* what CompoundSelector::unify does to the last compound of the append result *)
-Dedup(cmp) == Cat(Sq([i \in 1..Len(cmp) |-> IF \E j \in 1..(i - 1) : cmp[j] = cmp[i] THEN <<>> ELSE <<cmp[i]>>]))
-PeLast(cmp) == SelectSeq(cmp, LAMBDA s : ~IsPe(s)) \o SelectSeq(cmp, IsPe)
-UnifyNormComplex(toks) ==
-  LET c == Parse(toks)[1]  n == Len(c) IN
-  ToksComplex([c EXCEPT ![n].cmp = PeLast(Dedup(c[n].cmp))])
+(* the class of the deviation amp_via_unify: in the last compound of every member the emitted selector has *)
+(* the same simple selectors as the append result, in the same order, only duplicates dropped; of several  *)
+(* pseudo-elements only the first is kept, and it stands last                                               *)
+NonPe(cmp) == SelectSeq(cmp, LAMBDA s : ~IsPe(s))
+AmpNorm(nt, et) ==
+  LET c == Parse(nt)[1]  d == Parse(et)[1]  n == Len(c) IN
+  /\ Len(d) = n
+  /\ \A k \in 1..n : d[k].comb = c[k].comb /\ (k < n => d[k].cmp = c[k].cmp)
+  /\ LET nc == c[n].cmp  ec == d[n].cmp  np == NonPe(nc)  ep == NonPe(ec) IN
+     /\ IsSubseq(ep, np)
+     /\ {ep[i] : i \in 1..Len(ep)} = {np[i] : i \in 1..Len(np)}
+     /\ ec = ep \o (IF FirstPe(nc) = 0 THEN <<>> ELSE <<nc[FirstPe(nc)]>>)
 AppendDev(e) == /\ e.sf = "ok" /\ e.se = "ok" /\ Len(e.n) = Len(e.em)
-                /\ \A i \in 1..Len(e.n) : UnifyNormComplex(e.n[i]) = e.em[i]
+                /\ \A i \in 1..Len(e.n) : AmpNorm(e.n[i], e.em[i])
 
 ---------------------------------------------------------------------------
 (* Reference relation (vacuity guard only).  Compounds: every simple        *)
